@@ -66,26 +66,18 @@ Proof.
   destruct H as [H|H]; [cbn in H; subst; rewrite str_eqb_refl in Ek; discriminate|]. apply IH. exact H.
 Qed.
 
-Lemma brow_get_none : forall opt bs t r k, brow opt bs t = Some r -> ~ In k (map fst bs) -> get r k = None.
-Proof.
-  intros opt bs t r k B H. destruct (get r k) eqn:G; [|reflexivity]. exfalso. apply H.
-  rewrite <- (brow_keys opt bs t r B). eapply get_in_keys. exact G.
-Qed.
-
-Lemma brow_get_some : forall opt bs t r k, brow opt bs t = Some r -> In k (map fst bs) -> get r k <> None.
-Proof. intros opt bs t r k B H. apply keys_get. unfold keys. rewrite (brow_keys opt bs t r B). exact H. Qed.
-
 Lemma spec_row_keys : forall c glo t r k, d3c c -> spec_row c glo t = Some r -> get r k <> None -> In k (map fst (binders c)).
 Proof.
-  intros c glo t r k D H G. rewrite (spec_row_brow c glo t D) in H. destruct (consts_ok c glo t); [|discriminate].
-  destruct (in_dec str_eq_dec k (map fst (binders c))) as [I|I]; [exact I|].
-  exfalso. apply G. eapply brow_get_none; eauto.
+  intros c glo t r k D H G. rewrite (spec_row_brow c glo t) in H. destruct (consts_ok c glo t); [|discriminate].
+  unfold sbrow in H. destruct (spec_bind_facts _ _ _ _ _ H) as [_ [_ Hd]]. destruct (Hd k G) as [X|X]; [cbn in X; congruence|exact X].
 Qed.
 
 Lemma spec_row_full : forall c glo t r k, d3c c -> spec_row c glo t = Some r -> In k (map fst (binders c)) -> get r k <> None.
 Proof.
-  intros c glo t r k D H G. rewrite (spec_row_brow c glo t D) in H. destruct (consts_ok c glo t); [|discriminate].
-  eapply brow_get_some; eauto.
+  intros c glo t r k D H G. rewrite (spec_row_brow c glo t) in H. destruct (consts_ok c glo t); [|discriminate].
+  unfold sbrow in H. destruct (spec_bind_facts _ _ _ _ _ H) as [Hb _].
+  apply in_map_iff in G. destruct G as [[k' x] [E Hin]]. cbn in E. subst k'.
+  destruct (Hb k x Hin) as [v [w [_ [Gw _]]]]. congruence.
 Qed.
 
 Lemma spec_extend_in : forall c glo gs mu x, In x (spec_extend c glo gs mu) ->
@@ -211,14 +203,14 @@ Qed.
 Section Step.
   Variables (e : cfg) (gs : list graph) (glo : lopts).
   Hypotheses (Hks : ks e = true) (Hsl : strlit_invalid e = false) (H9 : fix9 e = true) (H14 : fix14 e = true)
-             (Hoid : fixoid e = true) (Hsb : fixsb e = true) (Hnd : forallb graph_nodup gs = true).
+             (Hoid : fixoid e = true) (Hsb : fixsb e = true) (Hz : fixzone e = true) (Hnd : forallb graph_nodup gs = true).
 
   (* the unspecialised fetch *)
   Lemma fetch_spec_extend : forall c, d3c c ->
     exists F, simple_fetch e gs c glo = Ok F /\ Forall2 row_equiv F (spec_extend c glo gs []).
   Proof.
     intros c D.
-    destruct (fetch_filtered e gs glo c [] [] D Hks Hoid Hsb Hnd eq_refl (row_equiv_refl [])) as [F [EF HF]].
+    destruct (fetch_filtered e gs glo c [] [] D Hks Hoid Hsb Hz Hnd eq_refl (row_equiv_refl [])) as [F [EF HF]].
     rewrite specialise_nil in EF. exists F. split; [exact EF|].
     rewrite (filter_true (compatible []) F compatible_nil) in HF.
     rewrite (map_ext (merge_rows []) (fun r => r) merge_nil_l), map_id in HF. exact HF.
@@ -250,7 +242,7 @@ Section Step.
     - assert (Hn : get r [] = None).
       { destruct (Hinv mu (or_introl eq_refl)) as [_ [Hn' _]]. pose proof (get_equiv r mu [] Hr) as G. rewrite Hn' in G.
         inversion G. reflexivity. }
-      destruct (asd_spec e gs glo c r mu D Hks Hsl H14 Hoid Hsb Hnd Hn Hr) as [rs [E1 F1]].
+      destruct (asd_spec e gs glo c r mu D Hks Hsl H14 Hoid Hsb Hz Hnd Hn Hr) as [rs [E1 F1]].
       destruct IH as [out [E2 F2]]; [intros m Hm; apply Hinv; right; exact Hm|].
       cbn [specify_rows]. rewrite E1. cbn [bind]. rewrite E2. cbn [bind]. eexists. split; [reflexivity|].
       cbn. apply Forall2_app; assumption.
